@@ -4,7 +4,7 @@
 # 2. applies the patch to /repo, runs EVERY quick check (and the property's own), restores /repo
 # 3. stores the change under /verif/seeded/<name>/ with meta.json
 set -u
-id="$1"; src="$2"; name="${3:-$id-$(basename "$src")}"
+id="$1"; src="$2"; name="${3:-$id-$(basename "$src")}"; source_txt="${4:-independent sub-agent given only the property text and a scratch worktree}"
 V=/verif; W=/tmp/seedwt_$$
 [ -f "$src/patch.diff" ] && [ -f "$src/demo.rs" ] || { echo "missing patch.diff/demo.rs in $src"; exit 2; }
 git -C /repo worktree add -q --detach "$W" HEAD || exit 2
@@ -37,12 +37,12 @@ git -C /repo checkout -- .
 echo "caught by:${caught:- NONE}"
 mkdir -p "$V/seeded/$name"
 cp "$src/patch.diff" "$src/demo.rs" "$V/seeded/$name/"; [ -f "$src/notes.md" ] && cp "$src/notes.md" "$V/seeded/$name/"
-python3 - "$V/seeded/$name/meta.json" "$id" "$demo_clean" "$demo_patched" "$suite_default" "$suite_devices" "$caught" <<'PY'
+python3 - "$V/seeded/$name/meta.json" "$id" "$demo_clean" "$demo_patched" "$suite_default" "$suite_devices" "$caught" "$source_txt" <<'PY'
 import json,sys
-path,pid,dc,dp,sd,sv,caught=sys.argv[1:8]
-json.dump({"property":pid,"source":"independent sub-agent given only the property text and a scratch worktree",
+path,pid,dc,dp,sd,sv,caught,src=sys.argv[1:9]
+json.dump({"property":pid,"source":src,
  "confirmed":{"demo_on_clean_tree":dc,"demo_with_patch":dp,"baseline_suite_default_features_with_patch":sd,"suite_with_devices_feature_with_patch":sv},
  "commands":["cargo test --offline --features devices --test seed_demo (clean worktree, then with patch applied)","cargo test --workspace --no-fail-fast --offline (with patch)","cargo test --offline --no-fail-fast --features devices (with patch)","git -C /repo apply patch.diff; ./run quick <every id>; git -C /repo checkout -- ."],
  "caught_by_quick_checks":caught.split(),"needs_to_manifest":"see notes.md"},open(path,"w"),indent=1)
 PY
-( cd $V && tools/all.sh quick >/dev/null 2>&1 ) # refresh evidence on the clean tree
+[ -n "${SEED_NO_REFRESH:-}" ] || ( cd $V && tools/all.sh quick >/dev/null 2>&1 ) # refresh evidence on the clean tree
